@@ -42,6 +42,20 @@ class C04(Check):
             exps.append({"kind": "corpus:" + m["file"], "world_spec": {"files": files}, "include": [cid], "plugins": False, "path_include": None,
                          "extra_findings": {}, "single": True, "sched": {"seed": m["idx"], "policy": "fifo", "line_p": 0.0}, "workers": None,
                          "enum_seed": None})
+        # a codemod that reports a change while rendering identical code (no diff): dry and real must agree on whether that is
+        # a changeset; and setup.py / hard-linked files are left to the generated worlds
+        base = {"plugins": False, "path_include": None, "extra_findings": {}, "single": True, "sched": {"seed": 0, "policy": "fifo", "line_p": 0.0},
+                "workers": None, "enum_seed": None}
+        exps.append(dict(base, kind="fixed:change-without-diff", include=["pixee:python/remove-future-imports"],
+                         world_spec={"files": [{"path": "pkg/annotated.py", "raw": {"t": "from __future__ import annotations\n\n\ndef f(x: int) -> int:\n    return x\n"}},
+                                               {"path": "pkg/old.py", "raw": {"t": "from __future__ import print_function\n\nprint(1)\n"}}]}))
+        # setup.py rewritten as a source file AND updated as the manifest by the same codemod
+        setup_src = ('import pickle\nfrom setuptools import setup\n\n\ndef load(f):\n    return pickle.load(f)\n\n\ndef dump(o, f):\n    pickle.dump(o, f)\n\n\n'
+                     'setup(\n    name="x",\n    install_requires=[\n        "requests",\n    ],\n)\n')
+        exps.append(dict(base, kind="fixed:setup-py-source-and-manifest", include=["pixee:python/harden-pickle-load"],
+                         world_spec={"files": [{"path": "setup.py", "raw": {"t": setup_src}}]}))
+        exps.append(dict(base, kind="fixed:change-without-diff", include=["pixee:python/use-walrus-if"],
+                         world_spec={"files": [{"path": "pkg/w.py", "raw": {"t": "import re\n\n\ndef f(s):\n    m = re.match('a', s)\n    if m:\n        return m\n    m = None\n    return m\n"}}]}))
         return exps
 
     def gen(self, rng, i, tier):
@@ -104,7 +118,7 @@ class C04(Check):
                 if a and b:
                     for ra, rb in zip(a.get("results", []), b.get("results", [])):
                         fields += [k for k in set(ra) | set(rb) if ra.get(k) != rb.get(k)]
-                v.append({"clause": "dry-report-differs", "key": f"C04:report-differs:{','.join(sorted(set(fields))) or 'run'}:{inc}",
+                v.append({"clause": "dry-report-differs", "key": f"C04:report-differs:{','.join(sorted(set(fields))) or 'run'}:{inc}" + (":" + exp["kind"][6:] if exp["kind"].startswith("fixed:") else ""),
                           "detail": {"include": exp["include"], "fields": sorted(set(fields))}})
         return v
 
